@@ -119,7 +119,8 @@ def run(tier='quick', seed=0):
         if not opts:
             if T.is_fun():
                 return Abs('u%d' % len(bd), T.domain_type(), gen(T.range_type(), d - 1, [T.domain_type()] + bd))
-            return Var('w_' + str(abs(hash(str(T))) % 7), T)      # undeclared variable
+            import zlib
+            return Var('w_' + str(zlib.crc32(str(T).encode()) % 7), T)      # undeclared variable
         o = rng.choice(opts)
         if o[0] == 'var':
             return Var(o[1], T)
